@@ -27,7 +27,7 @@ from . import marshal_harness as H
 from . import wire_ref as W
 
 WRAPPERS = {'Byte': 'y', 'Boolean': 'b', 'Int16': 'n', 'UInt16': 'q', 'Int32': 'i', 'UInt32': 'u', 'Int64': 'x', 'UInt64': 't',
-            'Signature': 'g', 'ObjectPath': 'o'}
+            'Signature': 'g', 'ObjectPath': 'o', 'Double': 'd', 'String': 's'}
 
 
 def all_signatures(maxlen):
@@ -117,6 +117,8 @@ def gen_py(rnd, depth=0):
             if code == 'g': return cls(rnd.choice(['', 'i', 'a{sv}'])), True
             if code == 'o': return cls(rnd.choice(['/', '/a/b'])), True
             if code == 'b': return cls(rnd.random() < 0.5), True
+            if code == 'd': return cls(rnd.choice([0, 3, 1.5, -2.25])), True
+            if code == 's': return cls(rnd.choice(['', 'text', 'héllo'])), True
             lo, hi = W.BOUNDS[code]
             return cls(rnd.choice([lo, hi, 0 if lo <= 0 else lo])), True
         if k == 6: return rnd.choice([2**31, -2**31 - 1, 2**40]), False      # plain ints outside int32: inferred 'i' cannot hold them
@@ -273,7 +275,7 @@ def bounded(tier, seed):
     for name, code in WRAPPERS.items():
         n += 1
         cls = getattr(marshal, name)
-        v = cls('/a') if code == 'o' else cls('i') if code == 'g' else cls(1)
+        v = cls('/a') if code == 'o' else cls('i') if code == 'g' else cls('text') if code == 's' else cls(1)
         if marshal.sigFromPy(v) != code:
             return n, 'sigFromPy(%s(...)) = %r, the wrapper declares %r' % (name, marshal.sigFromPy(v), code), {'wrapper': name}
     # regression cases of the repaired inference defects (and their mirror images), checked on every run
@@ -323,7 +325,9 @@ def build(tier='quick'):
         cls = getattr(marshal, name, None)
         lemmas.append(('wrapper %s declares type %s' % (name, code), z3.BoolVal(cls is not None and getattr(cls, 'dbusSignature', None) == code)))
         lemmas.append(('variantClassMap[%s] is %s' % (code, name), z3.BoolVal(marshal.variantClassMap.get(code) is cls)))
-    lemmas.append(('variantClassMap has exactly the ten wrapper codes', z3.BoolVal(sorted(marshal.variantClassMap) == sorted(WRAPPERS.values()))))
+    lemmas.append(('variantClassMap maps exactly the basic value types to the wrapper selecting them',
+                   z3.BoolVal(sorted(marshal.variantClassMap) == sorted('ybnqiuxtdsgo') == sorted(WRAPPERS.values())
+                              and all(getattr(c, 'dbusSignature', None) == k for k, c in marshal.variantClassMap.items()))))
     from . import splitter_contracts as SC
     targets = []
     SC.add_splitter_contracts(w, targets)
